@@ -1,6 +1,6 @@
 ----------------------------- MODULE Trace_Order -----------------------------
 (* C2S judge for C08.  Aux: [rbs |-> Seq(RB), ords |-> Seq(ordering rule trees)] (same index).
-   kind "patch":  [id, rb, pt (sorted PatchTree as items), upt (the same patch built with sorting disabled)]
+   kind "patch":  [id, rb, ord (index into Aux.ords), pt (sorted PatchTree as items), upt (the same patch built with sorting disabled)]
    kind "config": [id, rb, t (config tree), out (order_config(t)), out2 (order_config(out))]
    kind "indep":  [id, full (command paths of patch(old,new)), part (command paths after dropping an unrelated top-level row)]     *)
 EXTENDS Orderer, TLC, Json, IOUtils
@@ -11,16 +11,16 @@ RECURSIVE IsSubseq(_, _)
 IsSubseq(a, b) == IF a = <<>> THEN TRUE ELSE IF b = <<>> THEN FALSE
                   ELSE IF Head(a) = Head(b) THEN IsSubseq(Tail(a), Tail(b)) ELSE IsSubseq(a, Tail(b))
 VerdictPatch(r) ==
-  LET RB == Aux.rbs[r.rb] ord == Aux.ords[r.rb] IN
+  LET RB == Aux.rbs[r.rb] ord == Aux.ords[r.ord] IN
   IF BagI(r.pt) # BagI(r.upt) THEN "sorting-lost-or-duplicated-commands"
   ELSE IF ~RemovalFirst(RB, r.pt, RB.rules, <<>>) THEN "re-creation-before-removal"
-  ELSE RankOrdered(RB.prefix, r.pt, ord, <<>>)
+  ELSE RankOrdered(RB.prefix, r.pt, ord)
 VerdictConfig(r) ==
-  LET RB == Aux.rbs[r.rb] ord == Aux.ords[r.rb] IN
+  LET RB == Aux.rbs[r.rb] ord == Aux.ords[r.ord] IN
   IF BagI(AsItems(r.out)) # BagI(AsItems(r.t)) THEN "order-config-not-a-permutation"
   ELSE IF r.out2 # r.out THEN "order-config-not-idempotent"
-  ELSE IF ~UnrankedStable(RB.prefix, r.t, r.out, ord, <<>>) THEN "unmentioned-rows-reordered"
-  ELSE RankOrdered(RB.prefix, AsItems(r.out), ord, <<>>)
+  ELSE IF ~UnrankedStable(RB.prefix, r.t, r.out, ord) THEN "unmentioned-rows-reordered"
+  ELSE RankOrdered(RB.prefix, AsItems(r.out), ord)
 \* "unrelated": the dropped row shares its leading word with no command of the patch (plain or negated), and dropping it only removes commands
 Lead(row, prefix) == IF Len(row) > 1 /\ row[1] = prefix THEN row[2] ELSE row[1]
 VerdictIndep(r) ==
